@@ -6,6 +6,9 @@ import DimodProofs.BKQue
 import DimodProofs.ReduceGiven
 import DimodProofs.HocOptions
 import DimodProofs.HocRecord
+import DimodProofs.PolyObject
+import DimodProofs.PolyRelabel
+import Generated.PolyState
 
 /-! # C15 — higher-order reduction is exact on consistent assignments; the penalty is never negative
 
@@ -1348,5 +1351,207 @@ example : ((samplePolyRecord (fun _ _ => witnessRespS) .spin witnessRaw [(.int 0
 example : witnessRespB.vars.Nodup ∧ (witnessRespB.rows.all (fun r => r.sample.length == witnessRespB.vars.length)) = true
     ∧ polyVars (normPoly .binary witnessRaw) = [.int 0, .int 1, .int 2] := by
   decide +kernel
+
+/-! ## histories on ONE `BinaryPolynomial` object (round 8)
+
+`Red.PolyOp` / `Red.applyOp` / `Red.runOps` (`DimodModel/PolyObject.lean`) model the object's mutations as coded
+(`__setitem__`, `poly[t] += b`, `__delitem__` / `pop`, `popitem`, `scale`, `normalize`, with their `KeyError` /
+`ZeroDivisionError` refusals).  The reductions read the object's CURRENT terms (no per-object cache in the code), so
+"reduce → mutate → reduce the same object again" is the reduction of the state after the history: -/
+
+/-- the object stays a well-formed dict (every key duplicate-free, keys pairwise different as sets) under every history -/
+theorem poly_object_history_well_formed (vt : VT) (raw : List (List Label × Rat)) (ops : List PolyOp) (s : PolyState)
+    (h : objectAfter vt raw ops = .ok s) : TermsOK s :=
+  runOps_ok ops _ s (normPoly_ok vt raw) h
+
+/-- the reductions applied to the object itself (`_init_binary_polynomial` returns a `BinaryPolynomial` unchanged) reduce
+    exactly its current terms: they are a fixed point of the constructor's normalisation -/
+theorem poly_object_terms_fixed_point (vt : VT) (raw : List (List Label × Rat)) (ops : List PolyOp) (s : PolyState)
+    (h : objectAfter vt raw ops = .ok s) : normPoly vt s = s :=
+  normPoly_of_ok vt s (poly_object_history_well_formed vt raw ops s h)
+
+/-- **BINARY, any history**: `make_quadratic` of the SAME object after any sequence of mutations is exact, on consistent
+    assignments, for the polynomial the object denotes NOW (`polyEnergy x s`, `s` the current terms) -/
+theorem history_make_quadratic_exact (raw : List (List Label × Rat)) (ops : List PolyOp) (s : PolyState)
+    (hobj : objectAfter .binary raw ops = .ok s)
+    (reserved : List Label) (strength : Rat) (choices : List Pair) (bag : List (PTerm Label)) (st : BK) (auxs : List Label)
+    (h : makeQuadratic reserved .binary strength s choices = some (bag, st, auxs)) (hch : ∀ c ∈ choices, c.1 ≠ c.2)
+    (x : Label → Rat) (hx : ∀ l, x l ∈ [(0 : Rat), 1]) (hc : ∀ c ∈ st.constraints, x c.2 = x c.1.1 * x c.1.2) :
+    evalBag x bag = polyEnergy x s := by
+  have := make_quadratic_exact reserved strength s choices bag st auxs h hch x hx hc
+  rwa [poly_object_terms_fixed_point .binary raw ops s hobj] at this
+
+/-- **SPIN, any history** (minimised over the spin auxiliaries, as `make_quadratic_exact_spin`) -/
+theorem history_make_quadratic_exact_spin (raw : List (List Label × Rat)) (ops : List PolyOp) (s : PolyState)
+    (hobj : objectAfter .spin raw ops = .ok s)
+    (reserved : List Label) (strength : Rat) (choices : List Pair) (bag : List (PTerm Label)) (st : BK) (auxs : List Label)
+    (h : makeQuadratic reserved .spin strength s choices = some (bag, st, auxs)) (hch : ∀ c ∈ choices, c.1 ≠ c.2)
+    (x : Label → Rat) (hx : Spin01 x) (hc : ∀ c ∈ st.constraints, x c.2 = x c.1.1 * x c.1.2) :
+    ∃ x', Spin01 x' ∧ (∀ l, l ∉ auxs → x' l = x l) ∧ evalBag x' bag = polyEnergy x s := by
+  obtain ⟨x', h1, h2, h3, _⟩ := make_quadratic_exact_spin reserved strength s choices bag st auxs h hch x hx hc
+  rw [poly_object_terms_fixed_point .spin raw ops s hobj] at h3
+  exact ⟨x', h1, h2, h3⟩
+
+/-- **`make_quadratic_cqm`, any history, both vartypes** -/
+theorem history_make_quadratic_cqm_exact (vt : VT) (raw : List (List Label × Rat)) (ops : List PolyOp) (s : PolyState)
+    (hobj : objectAfter vt raw ops = .ok s)
+    (reserved : List Label) (choices : List Pair) (obj : List (PTerm Label)) (cons : List (String × List (PTerm Label)))
+    (h : makeQuadraticCqm reserved vt s choices = some (obj, cons)) (hch : ∀ c ∈ choices, c.1 ≠ c.2)
+    (x : Label → Rat) (hfeas : ∀ c ∈ cons, evalBag x c.2 = 0) :
+    evalBag x obj = polyEnergy x s := by
+  have := make_quadratic_cqm_exact reserved vt s choices obj cons h hch x hfeas
+  rwa [poly_object_terms_fixed_point vt raw ops s hobj] at this
+
+/-- `poly.scale(c)`: the polynomial is multiplied by `c` — at every assignment -/
+theorem poly_object_scale_energy (x : Label → Rat) (c : Rat) (s : PolyState) :
+    polyEnergy x (scaleTerms c [] s) = c * polyEnergy x s := scaleTerms_energy x c s
+
+/-- `poly.scale(c, ignored_terms)`: the ignored terms keep their bias, the others are multiplied -/
+theorem poly_object_scale_ignored_energy (x : Label → Rat) (c : Rat) (ig : List LTerm) (s : PolyState) :
+    polyEnergy x (scaleTerms c ig s)
+      = c * polyEnergy x (s.filter (fun e => !isIgnored ig e.1)) + polyEnergy x (s.filter (fun e => isIgnored ig e.1)) :=
+  scaleTerms_energy_split x c ig s
+
+/-- `poly.normalize(...)` is a `scale` (by `1 / inv_scalar`), no change, or a `ZeroDivisionError` -/
+theorem poly_object_normalize_is_scale (s s' : PolyState) (rg : Ranges) (ig : List (List Label))
+    (h : applyOp s (.normalize rg ig) = .ok s') :
+    s' = s ∨ s' = scaleTerms (1 / invScalar rg (ig.map asKey) s) (ig.map asKey) s := by
+  simp only [applyOp] at h
+  split at h
+  · simp at h
+  · split at h
+    · simp only [Except.ok.injEq] at h; exact Or.inl h.symm
+    · simp only [Except.ok.injEq] at h; exact Or.inr h.symm
+
+/-- `poly[t] = b` on a well-formed object: the old contribution of the term (0 when absent) is replaced by `b·∏t` -/
+theorem poly_object_setitem_energy (x : Label → Rat) (s : PolyState) (hs : TermsOK s) (t : List Label) (b : Rat) :
+    polyEnergy x (objSet s (asKey t) b)
+      = polyEnergy x s - (objGet s (asKey t)).getD 0 * termVal x (asKey t) + b * termVal x (asKey t) :=
+  objSet_energy x s hs (asKey t) (asKey_nodup t) b
+
+/-- `del poly[t]` / `poly.pop(t)` on a well-formed object removes the term's contribution -/
+theorem poly_object_delitem_energy (x : Label → Rat) (s : PolyState) (hs : TermsOK s) (t : List Label) :
+    polyEnergy x (objDel s (asKey t)) = polyEnergy x s - (objGet s (asKey t)).getD 0 * termVal x (asKey t) :=
+  objDel_energy x s hs (asKey t) (asKey_nodup t)
+
+/-- refusals: `poly[t] += b`, `del poly[t]`, `poly.pop(t)` raise `KeyError` exactly when the term is absent;
+    `popitem` exactly on the empty polynomial; `normalize` divides by zero exactly when a range bound is 0 -/
+theorem poly_object_refuses_iff (s : PolyState) :
+    (∀ t b, applyOp s (.addItem t b) = .error .keyError ↔ objGet s (asKey t) = none)
+    ∧ (∀ t, applyOp s (.delItem t) = .error .keyError ↔ objGet s (asKey t) = none)
+    ∧ (applyOp s .popItem = .error .keyError ↔ s = [])
+    ∧ (∀ rg ig, applyOp s (.normalize rg ig) = .error .zeroDivision ↔ (rg.linLo = 0 ∨ rg.linHi = 0 ∨ rg.polyLo = 0 ∨ rg.polyHi = 0))
+    ∧ (∀ t b, ∃ s', applyOp s (.setItem t b) = .ok s') ∧ (∀ c ig, ∃ s', applyOp s (.scale c ig) = .ok s') := by
+  refine ⟨?_, ?_, ?_, ?_, ?_, ?_⟩
+  · intro t b; simp only [applyOp]; cases objGet s (asKey t) <;> simp
+  · intro t; simp only [applyOp]; cases objGet s (asKey t) <;> simp
+  · cases s <;> simp [applyOp]
+  · intro rg ig; simp only [applyOp]
+    split
+    · rename_i h0; simp [h0]
+    · rename_i h0; split <;> simp [h0]
+  · intro t b; exact ⟨_, rfl⟩
+  · intro c ig; exact ⟨_, rfl⟩
+
+/-- a history with every kind of mutation that succeeds: `2abc − 3/2·abd + a/2 + 1/4`, scaled by 2, `abc := −3/4` (spelled
+    `b, a, c`), constant `+= 1`, `a` deleted, normalised to [−1, 1] (inv_scalar = 3): the object is `−abc/4 − abd + 1/2` — by kernel evaluation; so the
+    hypothesis `objectAfter … = .ok s` of the history theorems is met by a history with every kind of mutation -/
+example : (objectAfter .binary [([.str "a", .str "b", .str "c"], 1), ([.str "a", .str "b", .str "d"], -3/2), ([.str "a"], 1/2), ([], 1/4)]
+      [.scale 2 [], .setItem [.str "b", .str "a", .str "c"] (-3/4), .addItem [] 1, .delItem [.str "a"],
+       .normalize { linLo := -1, linHi := 1, polyLo := -1, polyHi := 1 } []]).toOption
+    = some [([.str "a", .str "b", .str "c"], -1/4), ([.str "a", .str "b", .str "d"], -1), ([], 1/2)] := by
+  decide +kernel
+
+example : (applyOp [([.int 0, .int 1], (1 : Rat))] (.delItem [.int 2])).toOption = none
+    ∧ (applyOp [([.int 0, .int 1], (1 : Rat))] (.addItem [.int 1, .int 0] 2)).toOption = some [([.int 0, .int 1], 3)] := by
+  decide +kernel
+
+/-- **the term dict is the whole state** (regenerated from the source by `harness/translators/c15_poly_state.py`): a
+    `BinaryPolynomial` stores nothing but `_terms` and `vartype` (no per-object or class-level cache, no memoising decorator), and
+    the reductions of `dimod/higherorder/utils.py` use nothing of the polynomial argument but `items()`, `variables`, `vartype` (and
+    iteration), and keep no module-level container: `Red.PolyState` models all of it, and a reduction after a history depends on the
+    current terms only -/
+theorem polynomial_object_state_is_terms_and_vartype :
+    Generated.PolyState.instanceAttributes = ["_terms", "vartype"]
+    ∧ Generated.PolyState.reductionUses = ["items", "variables", "vartype"] := by decide
+
+/-- `relabel_variables` inside a history (the history theorems above cover it: `PolyOp.relabel`): `abc − a/2` with `a ↦ x, b ↦ 7`
+    becomes `x·7·c − x/2`; mapping two variables to one label, or onto an existing variable that is not relabelled itself, is refused
+    (`ValueError`), and the object is then unchanged by construction (`applyOp` returns no state) -/
+example : (objectAfter .binary [([.str "a", .str "b", .str "c"], 1), ([.str "a"], -1/2)] [.relabel [(.str "a", .str "x"), (.str "b", .int 7)]]).toOption
+      = some [([.str "x", .int 7, .str "c"], 1), ([.str "x"], -1/2)]
+    ∧ (applyOp [([.str "a", .str "b"], (1 : Rat))] (.relabel [(.str "a", .str "q"), (.str "b", .str "q")])).toOption = none
+    ∧ (applyOp [([.str "a", .str "b"], (1 : Rat))] (.relabel [(.str "a", .str "b")])).toOption = none := by
+  decide +kernel
+
+/-- one term under `relabel_variables`: when the mapping is injective on the term's variables, the new term `frozenset(submap.get(v, v)
+    for v in oldterm)` has, at every assignment `x` of the new labels, the value of the old term at `x ∘ mapping` (the bias is carried
+    over unchanged by `self[newterm] = bias`); the whole-polynomial statement is not proved (`relabel_variables` is tied by correspondence) -/
+theorem poly_object_relabel_term_value_partial (x : Label → Rat) (m : List (Label × Label)) (t : LTerm)
+    (hinj : (t.map (mapLabel m)).Nodup) :
+    termVal x (relabelTerm m t) = termVal (fun v => x (mapLabel m v)) t := relabelTerm_value x m t hinj
+
+/-- **`relabel_variables` relabels the whole polynomial** (in place, a mapping without label conflicts): when different terms stay
+    different and a changed term collides with no old term (`RelabelOK`: what fresh new labels and an injective mapping give) and
+    the mapping is injective on every term, the in-place loop over the snapshot (`self[newterm] = bias; del self[oldterm]`) leaves
+    exactly the relabelled entries (`relabelStep_perm`), so at every assignment `x` of the new labels the object has the energy the old
+    polynomial had at `x ∘ mapping` — and by the history theorems the reductions after it are exact for that polynomial -/
+theorem poly_object_relabel_energy (x : Label → Rat) (m : List (Label × Label)) (s : PolyState) (hs : TermsOK s)
+    (hok : RelabelOK m s) (hinj : ∀ e ∈ s, (e.1.map (mapLabel m)).Nodup) :
+    polyEnergy x (relabelStep m s) = polyEnergy (fun v => x (mapLabel m v)) s
+    ∧ (relabelStep m s).Perm (s.map (relabelEntry m)) :=
+  ⟨relabelStep_energy x m s hs hok hinj, relabelStep_perm m s hs hok⟩
+
+/-- the hypotheses of `poly_object_relabel_energy` are met by `abc − a/2 + c` with `a ↦ x, b ↦ 7` -/
+example : RelabelOK [(.str "a", .str "x"), (.str "b", .int 7)] [([.str "a", .str "b", .str "c"], 1), ([.str "a"], -1/2), ([.str "c"], 1)]
+    ∧ (∀ e ∈ ([([.str "a", .str "b", .str "c"], 1), ([.str "a"], -1/2), ([.str "c"], 1)] : PolyState),
+        (e.1.map (mapLabel [(.str "a", .str "x"), (.str "b", .int 7)])).Nodup) :=
+  ⟨⟨by decide +kernel, by decide +kernel⟩, by decide +kernel⟩
+
+/-- the same from the LABEL-level conditions: the mapping is injective on the polynomial's variables and a variable that changes gets
+    a label that is not a variable of the polynomial (for a conflict-free dict that `iter_safe_relabels` accepts: new labels pairwise
+    different, none of them an existing variable) -/
+theorem poly_object_relabel_energy_of_labels (x : Label → Rat) (m : List (Label × Label)) (s : PolyState) (hs : TermsOK s)
+    (hinj : ∀ v w, v ∈ stateVars s → w ∈ stateVars s → mapLabel m v = mapLabel m w → v = w)
+    (hfresh : ∀ v ∈ stateVars s, mapLabel m v ≠ v → mapLabel m v ∉ stateVars s) :
+    polyEnergy x (relabelStep m s) = polyEnergy (fun v => x (mapLabel m v)) s :=
+  relabelStep_energy x m s hs (relabelOK_of_labels m s hinj hfresh) (relabel_inj_on_terms m s hs hinj)
+
+/-- **end of the chain for `relabel_variables`**: whenever the in-place relabelling of a well-formed object succeeds (mapping accepted
+    by `iter_safe_relabels`, no label conflict), the object afterwards has, at every assignment `x` of the new labels, the energy the
+    polynomial had before at `x ∘ mapping` — no hypothesis left but the success of the call -/
+theorem poly_object_relabel_succeeds_energy (x : Label → Rat) (m : List (Label × Label)) (s s' : PolyState) (hs : TermsOK s)
+    (h : applyOp s (.relabel m) = .ok s') :
+    polyEnergy x s' = polyEnergy (fun v => x (mapLabel m v)) s := by
+  simp only [applyOp] at h
+  split at h
+  · rename_i sub hsub
+    simp only [Except.ok.injEq] at h
+    obtain ⟨hsubm, hinj, hfresh⟩ := safeRelabel_ok_conditions m sub s hsub
+    subst hsubm; subst h
+    exact poly_object_relabel_energy_of_labels x _ s hs hinj hfresh
+  · simp at h
+
+/-- the conflict path (`PolyOp.relabelVia`, `resolve_label_conflict` as coded): swapping `0 ↔ 1` in `x0x1x2 + x0/2 + 3x1` goes through the
+    intermediate labels 4 and 5 (`2·len(mapping)` onwards) and gives `x0x1x2 + 3x0 + x1/2`; the history theorems cover this op too
+    (every `PolyOp` keeps the object well formed) -/
+example : (objectAfter .binary [([.int 0, .int 1, .int 2], 1), ([.int 0], 1/2), ([.int 1], 3)] [.relabelVia [(.int 0, .int 1), (.int 1, .int 0)]]).toOption
+      = some [([.int 1, .int 0, .int 2], 1), ([.int 1], 1/2), ([.int 0], 3)]
+    ∧ resolveConflict [(.int 0, .int 1), (.int 1, .int 0)] [.int 0, .int 1, .int 2]
+      = ([(.int 0, .int 4), (.int 1, .int 5)], [(.int 4, .int 1), (.int 5, .int 0)]) := by
+  decide +kernel
+
+/-- the conflict path (swap / cycle: two safe steps through intermediate labels) composes two relabellings: when each of the two dicts of
+    `resolve_label_conflict` meets the label-level conditions on the state it is applied to, the object has the old polynomial's energy at
+    `x ∘ intermediate_to_new ∘ old_to_intermediate`.  Partial: that the two dicts as coded meet these conditions (fresh integer labels
+    from the counter, `intermediate_to_new` injective on the intermediate state) is not proved — tied by the per-run replay only -/
+theorem poly_object_relabel_conflict_energy_partial (x : Label → Rat) (o2i i2n : List (Label × Label)) (s : PolyState) (hs : TermsOK s)
+    (h1inj : ∀ v w, v ∈ stateVars s → w ∈ stateVars s → mapLabel o2i v = mapLabel o2i w → v = w)
+    (h1fresh : ∀ v ∈ stateVars s, mapLabel o2i v ≠ v → mapLabel o2i v ∉ stateVars s)
+    (h2inj : ∀ v w, v ∈ stateVars (relabelStep o2i s) → w ∈ stateVars (relabelStep o2i s) → mapLabel i2n v = mapLabel i2n w → v = w)
+    (h2fresh : ∀ v ∈ stateVars (relabelStep o2i s), mapLabel i2n v ≠ v → mapLabel i2n v ∉ stateVars (relabelStep o2i s)) :
+    polyEnergy x (relabelStep i2n (relabelStep o2i s)) = polyEnergy (fun v => x (mapLabel i2n (mapLabel o2i v))) s := by
+  rw [poly_object_relabel_energy_of_labels x i2n (relabelStep o2i s) (relabelStep_ok o2i s hs) h2inj h2fresh,
+    poly_object_relabel_energy_of_labels (fun v => x (mapLabel i2n v)) o2i s hs h1inj h1fresh]
 
 end C15
